@@ -362,6 +362,19 @@ Fixpoint agree_h5 (fx : bool) (s : cls_spec) (ntrait : Z) (g : option str) (f : 
   | _, _ => false
   end.
 
+(** h5py_File_write_dict called directly: a history of dictionaries written below one group name *)
+Fixpoint agree_wd (fx : bool) (g : str) (f : file) (steps : list (list (str * item) * bool))
+                  (outs : list (bool * option (list (str * option dset)))) : bool :=
+  match steps, outs with
+  | [], [] => true
+  | (d, ow) :: st, (werr, dump) :: ot =>
+    let '(f1, e) := write_dict fx f g d ow in
+    Bool.eqb werr (match e with Some _ => true | None => false end)
+    && match dump with Some x => dump_ok f1 x | None => true end
+    && agree_wd fx g f1 st ot
+  | _, _ => false
+  end.
+
 (** ** the observational equality of the property: python int = numpy integer scalar of the same value,
     python float = float64 scalar with the same bits; everything else literally *)
 Definition scalar_key (v : sval) : option (Z * Z) :=
